@@ -41,6 +41,7 @@ def gen_c18(rng, tier):
 
 
 class C18(Prop):
+    pulls_others = True      # error kinds of other modules' operation families: by their owner's statement
     pid = "C18"
     title = "iterators"
     thm_modules = ["PeliteModel.Thm.C18", "PeliteModel.Thm.C18Pgo"]
@@ -163,6 +164,7 @@ def gen_c19(rng, tier):
 
 
 class C19(Prop):
+    pulls_others = True      # error kinds of other modules' operation families: by their owner's statement
     named_errors = set()                  # error kinds: wrapper vs specific API are compared with each other exactly
     pid = "C19"
     title = "wrappers and JSON"
